@@ -220,9 +220,10 @@ def r09_9(ctx):
 @rule("R09.10", min_instances=12, desc="the dynamics of interval k see the parameter columns of interval k under every method: model slot tables of the collocation defect equations and of the shooting step calls (shared with C02 / C01)")
 def r09_10(ctx):
     from .c02 import r02_2
-    from .c01 import r01_4
+    from .c01 import r01_4, r01_6
     r02_2(ctx)
     r01_4(ctx)
+    r01_6(ctx)   # get_p_sys hands every per-interval helper the interval index k (never a default)
 
 
 @rule("R09.11", min_instances=6, desc="a value given for a concatenation of symbols is split among them by their own sizes, in order (for_all_primitives: used by set_value, set_initial, set_der, set_next)")
